@@ -48,6 +48,7 @@ pub fn c06_configs(tier: Tier) -> Vec<OutCfg> {
                 inbound: 0,
                 may_close: false,
                 inbound_faults: false,
+                cancel_inflight: false,
             });
         }
         // converse: correct in-order peer, some sends fail locally
@@ -98,6 +99,7 @@ pub fn c06_configs(tier: Tier) -> Vec<OutCfg> {
                 inbound: 0,
                 may_close: false,
                 inbound_faults: false,
+                cancel_inflight: false,
             });
         }
     }
@@ -132,6 +134,7 @@ pub fn c14_configs(tier: Tier) -> Vec<OutCfg> {
                     inbound: 0,
                     may_close: false,
                     inbound_faults: false,
+                    cancel_inflight: false,
                 });
             }
         }
